@@ -7164,8 +7164,11 @@ moveto_attr(struct lyxp_set *set, const struct lys_module *mod, const char *ncna
                 if (!ncname || (sub->name == ncname)) {
                     /* match */
                     if (!replaced) {
+                        /* keep the hash table of the set in sync with the replaced item */
+                        set_remove_node_hash(set, set->val.nodes[i].node, LYXP_NODE_ELEM);
                         set->val.meta[i].meta = sub;
                         set->val.meta[i].type = LYXP_NODE_META;
+                        set_insert_node_hash(set, (struct lyd_node *)sub, LYXP_NODE_META);
                         /* pos does not change */
                         replaced = 1;
                     } else {
@@ -7295,8 +7298,11 @@ moveto_attr_alldesc(struct lyxp_set *set, const struct lys_module *mod, const ch
                 if (!ncname || (sub->name == ncname)) {
                     /* match */
                     if (!replaced) {
+                        /* keep the hash table of the set in sync with the replaced item */
+                        set_remove_node_hash(set, set->val.nodes[i].node, LYXP_NODE_ELEM);
                         set->val.meta[i].meta = sub;
                         set->val.meta[i].type = LYXP_NODE_META;
+                        set_insert_node_hash(set, (struct lyd_node *)sub, LYXP_NODE_META);
                         /* pos does not change */
                         replaced = 1;
                     } else {
